@@ -1134,3 +1134,94 @@ def replay_cli(model, obligation, argv, want):
         bad = p.returncode != 1 or 'Traceback' in p.stderr or not p.stderr.strip()
     shutil.rmtree(tmp, ignore_errors=True)
     return dict(confirmed=bool(bad), call='python -m segno.cli %s' % ' '.join(a), detail='exit status %d, stderr %r' % (p.returncode, p.stderr[-200:]))
+
+
+# ---------------------------------------------------------------- C08 replays
+def replay_divide_into_chunks(model, obligation, num):
+    n = int((model or {}).get('content_length', 0)) % 200
+    for ln in (n, num, num + 1, 2 * num - 1, 0, 1, 47):
+        content = ''.join(chr(65 + i % 26) for i in range(ln))
+        kw = dict(symbol_count=num) if ln >= num else None
+        if kw is None:
+            continue
+        try:
+            seq = encoder.encode_sequence(content, symbol_count=num)
+        except Exception as ex:
+            return dict(confirmed=True, call='encode_sequence(<%d chars>, symbol_count=%d)' % (ln, num), detail='raised %r' % (ex,))
+        sizes = [s.segments[0].char_count for s in seq]
+        if sum(sizes) != ln or len(sizes) != num or max(sizes) - min(sizes) > 1:
+            return dict(confirmed=True, call='encode_sequence(<%d chars>, symbol_count=%d)' % (ln, num), detail='chunk sizes %r' % (sizes,))
+    return dict(confirmed=False, detail='chunk sizes as specified')
+
+
+def replay_sequence(model, obligation, content, kw):
+    import ast
+    from functools import reduce
+    from . import qrdecode
+    c, k = ast.literal_eval(content), ast.literal_eval(kw)
+    call = 'segno.make_sequence(%s, **%s)' % (content[:80], kw)
+    try:
+        seq = segno.make_sequence(c, **k)
+    except ValueError as ex:
+        return dict(confirmed=False, call=call, detail='refused: %s' % ex)
+    except Exception as ex:
+        return dict(confirmed=True, call=call, detail='raised %r' % (ex,))
+    decs = [qrdecode.decode(q.matrix) for q in seq]
+    want = qrdecode.expected_payload(c, encoding=k.get('encoding'))
+    probs = []
+    n = len(seq)
+    if not 1 <= n <= 16 or any(q.is_micro for q in seq):
+        probs.append('%d symbols' % n)
+    if 'symbol_count' in k and 'version' not in k and n != k['symbol_count']:
+        probs.append('%d symbols, symbol_count=%d' % (n, k['symbol_count']))
+    if 'version' in k and 'symbol_count' not in k and any(q.version != k['version'] for q in seq):
+        probs.append('versions %r' % [q.version for q in seq])
+    for i, d in enumerate(decs):
+        if d.problems or not d.syndromes_ok:
+            probs.append('symbol %d (%s): %s' % (i, seq[i].designator, d.problems[:1]))
+            break
+    if not probs:
+        if n > 1:
+            if any(d.sa_raw is None or d.sa_raw[0] != i or d.sa_raw[1] != n - 1 for i, d in enumerate(decs)):
+                probs.append('headers %r' % [d.sa_raw for d in decs][:4])
+            par = sorted(set(d.sa_raw[2] for d in decs if d.sa_raw))
+            wp = reduce(lambda a, b: a ^ b, want, 0)
+            if par != [wp]:
+                probs.append('parity %r, XOR of the message bytes %d' % (par, wp))
+        got = b''.join(d.payload for d in decs)
+        if got != want:
+            probs.append('payloads concatenate to %r..., message bytes %r...' % (got[:30], want[:30]))
+    return dict(confirmed=bool(probs), call=call, detail='; '.join(probs) or 'sequence reassembles')
+
+
+def replay_sequence_structure(model, obligation, mode, cfg):
+    import ast
+    from . import qrdecode
+    c = dict(ast.literal_eval(cfg), error='M')
+    unit = {'numeric': '0123456789', 'alphanumeric': 'AB C1$', 'byte': 'abcé', 'kanji': '点茗テ'}[mode]
+    n = int((model or {}).get('content_length', 20))
+    for ln in (n % 300, 70, 8, 11, 16, 17, 100):
+        content = (unit * (ln // len(unit) + 1))[:ln]
+        call = 'segno.make_sequence(<%d %s characters>, **%r)' % (ln, mode, c)
+        try:
+            seq = segno.make_sequence(content, **c)
+        except ValueError as ex:
+            if 'symbol_count' in c and ln >= c['symbol_count']:
+                return dict(confirmed=True, call=call, detail='refused although the content has at least symbol_count characters: %s' % ex)
+            continue
+        except Exception as ex:
+            return dict(confirmed=True, call=call, detail='raised %r' % (ex,))
+        decs = [qrdecode.decode(q.matrix) for q in seq]
+        counts = []
+        for d in decs:
+            ds = [s for s in d.segments if s.is_data()]
+            counts.append(ds[0].char_count if len(ds) == 1 else None)
+        if len(seq) > 1 and None not in counts and mode != 'byte':
+            if max(counts) - min(counts) > 1 or sum(counts) != ln:
+                return dict(confirmed=True, call=call, detail='character counts of the symbols %r (message has %d)' % (counts, ln))
+        if len(set(q.version for q in seq)) != 1:
+            return dict(confirmed=True, call=call, detail='versions %r' % [q.version for q in seq])
+        hdr = [d.sa_raw for d in decs]
+        if len(seq) > 1 and any(h is None or h[0] != i or h[1] != len(seq) - 1 for i, h in enumerate(hdr)):
+            return dict(confirmed=True, call=call, detail='headers %r' % (hdr[:4],))
+    return dict(confirmed=False, detail='sequence structure as specified for the tried lengths')
